@@ -1,6 +1,7 @@
 import MgpuProofs.Props.C09
 import MgpuProofs.C09Fit5
 import MgpuProofs.C09Tie4
+import MgpuProofs.C09Rej
 /-! # C09 — a work-group that fits an empty CU is always dispatched: liveness without alternative
 
 `Props/C09.lean` ends with a liveness theorem whose conclusion keeps the alternative `RefusedIdle`
@@ -8,7 +9,11 @@ import MgpuProofs.C09Tie4
 * `ReserveResourceForWG` is *complete and exact* on a CU without residents (`Fits`);
 * the bookkeeping state is a function of the resident set, releasing restores it exactly;
 * pool residents are exactly what dispatchers hold (placed or in flight);
-hence for kernels whose work-groups fit a CU, every launch is answered under a fair environment. -/
+hence for kernels whose work-groups fit a CU, every launch is answered under a fair environment.
+Since the repair 91eb1bb3 `StartDispatching` checks the first work-group of a launch against the pool
+(`launchFits` = `Fits` on the empty-pool sizes of some CU): a launch that fits no CU is rejected at once
+(`oversize_launch_is_rejected`, `…_at_once`), one that fits never is (`fitting_launch_is_never_rejected`);
+the silent wait of the pinned code is kept as a witness about `…Old` (`oversize_group_waits_forever_before_fix`). -/
 namespace C09
 
 /-- the demo CU of `Props/C09.lean`: 2 SIMDs × 2 slots, 4 SGPR units, 2 VGPR units per SIMD, 4 LDS units -/
@@ -190,23 +195,129 @@ example : ∃ N, ∀ k, Op.launch k ∈ demoOps →
   have : demoEnd.cuIn = [] := by decide
   rw [this] at h; cases h
 
-/-! ## the fit hypothesis is necessary: an oversize work-group waits for ever -/
+/-! ## an oversize launch is rejected at once (repair 91eb1bb3); a launch that fits never is -/
 
-/-- the state two ticks after the launch of a kernel whose work-group needs 200 SGPRs on 64-SGPR CUs -/
-def tooBigEnd : CP := run (mkCP demoCfg 2 demoPool) tooBigOps
+/-- **the check the model computes is `Fits`.** On a CU that satisfies the resource invariant — whatever
+    is resident on it — `fitsWhenEmpty` (pool sizes = free entries + resident wavefronts, mask shapes)
+    answers exactly the predicate `Fits` of `empty_cu_accepts_iff_fits` for the registered pool sizes;
+    for a whole pool `CheckWGFitsInACU` of the first work-group is `FitsPool` ("some CU fits"). -/
+theorem fit_check_is_fits (cap : List Nat) (cu : CU) (d : Dem) (h : Inv cap cu) :
+    fitsEmpty cu d = true ↔ Fits cap cu.shapes d := fitsEmpty_iff cap cu d h
 
-/-- **`oversize_group_waits_forever`** (kernel-checked witness). The only hypothesis of
-    `fair_environment_answers_every_launch_that_fits` that fails is `KernFits`: the work-group fits no
-    CU. Then for ever: no fault, the environment owes nothing at every tick (both ports have room,
-    nothing is in flight, no unread message), and yet the launch is never answered, never mapped and
-    never rejected — every tick reports no progress (the state is a fixed point of
-    `CommandProcessor.Tick`, so the ticking component goes to sleep and nothing wakes it). The real
-    command processor does the same (harness scenario `c09OversizeCase`, finding
-    `C09.oversize.silent-wait`). -/
-theorem oversize_group_waits_forever :
+example : fitsEmpty demoCU ⟨4, 16, 4, 1024⟩ = true ∧ fitsEmpty demoCU ⟨4, 17, 4, 1024⟩ = false ∧
+    fitsEmpty (reserve demoCU 99 ⟨4, 16, 4, 1024⟩).2 ⟨4, 16, 4, 1024⟩ = true ∧
+    (reserve demoCU 99 ⟨4, 16, 4, 1024⟩).2.poolSizes = [2, 2] ∧
+    (reserve demoCU 99 ⟨4, 16, 4, 1024⟩).2.wfFree = [0, 0] := by decide
+
+/-- **An oversize launch is rejected by `Handle`.** A launch at the head of `ToDriver`, an available
+    dispatcher, a pool that satisfies the resource invariant, and no CU of the pool on which the first
+    work-group `Fits` (also: no CU at all): `processLaunchKernelReq` only raises the terminal fault
+    "oversize" (the Go panic "cannot dispatch kernel") — the launch stays queued, no dispatcher starts
+    it, nothing is emitted, no progress is reported. -/
+theorem oversize_launch_is_rejected (caps : List (List Nat)) (cp : CP) (k : Kern) (rest : List Kern) (i : Nat)
+    (hd : cp.drvIn = k :: rest) (hfa : findAvailable cp.disps = some i) (hk : 1 ≤ k.gx)
+    (hp : PoolInv caps cp.pool) (hno : ¬ FitsPool caps (cp.pool.map CU.shapes) (k.dem 0)) :
+    handleLaunch cp = ({ cp with fault := some "oversize" }, false) := by
+  have hl : launchFits cp.pool k = false := by
+    cases h : launchFits cp.pool k with
+    | false => rfl
+    | true => exact absurd ((launchFits_iff caps _ cp.pool k hp rfl hk).1 h) hno
+  unfold handleLaunch
+  rw [hd]; simp only [hfa, hl]
+  simp [hd]
+
+/-- **An oversize launch is rejected at once by the tick that takes it.** The dispatchers' ticks raise
+    no fault, a launch `k` is at the head of `ToDriver`, a dispatcher is available after the
+    dispatchers' ticks, the pool satisfies the resource invariant and no CU of the pool `Fits` the first
+    work-group of `k`: the state after `CommandProcessor.Tick` is the state after the dispatchers' ticks
+    with `fault = some "oversize"` and nothing else changed — the launch is still queued, no
+    dispatcher took it, the trace has no new event (nothing is mapped for it, no response is sent). -/
+theorem oversize_launch_is_rejected_at_once (caps : List (List Nat)) (cp : CP) (k : Kern) (rest : List Kern)
+    (i : Nat) (hf1 : (tickDispatchers (List.range cp.disps.length) cp).1.fault = none)
+    (hd : cp.drvIn = k :: rest) (hk : 1 ≤ k.gx)
+    (hav : findAvailable (tickDispatchers (List.range cp.disps.length) cp).1.disps = some i)
+    (hp : PoolInv caps (tickDispatchers (List.range cp.disps.length) cp).1.pool)
+    (hno : ¬ FitsPool caps ((tickDispatchers (List.range cp.disps.length) cp).1.pool.map CU.shapes) (k.dem 0)) :
+    (cpTick cp).1 = { (tickDispatchers (List.range cp.disps.length) cp).1 with fault := some "oversize" } ∧
+    (cpTick cp).1.fault = some "oversize" ∧ (cpTick cp).1.drvIn = k :: rest ∧
+    (cpTick cp).1.log = (tickDispatchers (List.range cp.disps.length) cp).1.log ∧
+    (cpTick cp).1.out = (tickDispatchers (List.range cp.disps.length) cp).1.out ∧
+    (cpTick cp).1.disps = (tickDispatchers (List.range cp.disps.length) cp).1.disps := by
+  have hd1 : (tickDispatchers (List.range cp.disps.length) cp).1.drvIn = k :: rest := by
+    rw [tickDispatchers_drvIn]; exact hd
+  have e1 := oversize_launch_is_rejected caps _ k rest i hd1 hav hk hp hno
+  have e2 : handleLaunch (handleLaunch (tickDispatchers (List.range cp.disps.length) cp).1).1 =
+      handleLaunch (tickDispatchers (List.range cp.disps.length) cp).1 :=
+    handleLaunch_fault_idem _ (by rw [e1]) hf1
+  have hf : ¬ (tickDispatchers (List.range cp.disps.length) cp).1.fault.isSome = true := by rw [hf1]; simp
+  have e : (cpTick cp).1 =
+      { (tickDispatchers (List.range cp.disps.length) cp).1 with fault := some "oversize" } := by
+    unfold cpTick
+    simp only [hf, Bool.false_eq_true, if_false]
+    rw [e2, e1]
+  refine ⟨e, ?_, ?_, ?_, ?_, ?_⟩ <;> rw [e]
+  exact hd1
+
+/-- **A launch that fits is never rejected.** Pool with the resource invariant; the first work-group of
+    the launch at the head of the queue `Fits` some CU of the pool (a launch with an empty grid is not
+    checked): `Handle` does exactly what it did before the repair and raises no fault. -/
+theorem fitting_launch_is_never_rejected (caps : List (List Nat)) (cp : CP) (hp : PoolInv caps cp.pool)
+    (hfit : ∀ k rest, cp.drvIn = k :: rest → 1 ≤ k.gx → FitsPool caps (cp.pool.map CU.shapes) (k.dem 0)) :
+    handleLaunch cp = handleLaunchOld cp ∧ (handleLaunch cp).1.fault = cp.fault := by
+  have e : handleLaunch cp = handleLaunchOld cp := by
+    apply handleLaunch_of_fits
+    intro k rest hd
+    by_cases hk : 1 ≤ k.gx
+    · exact (launchFits_iff caps _ cp.pool k hp rfl hk).2 (hfit k rest hd hk)
+    · have : k.gx = 0 := by omega
+      simp [launchFits, this]
+  refine ⟨e, ?_⟩
+  rw [e]
+  unfold handleLaunchOld
+  cases cp.drvIn with
+  | nil => rfl
+  | cons k rest =>
+    cases findAvailable cp.disps with
+    | none => rfl
+    | some i => rfl
+
+/-- the hypotheses of the three theorems on the demo pool: the 200-SGPR kernel fits no demo CU, the demo
+    kernels do -/
+example : PoolInv [[2, 2], [2, 2]] demoPool ∧
+    ¬ FitsPool [[2, 2], [2, 2]] (demoPool.map CU.shapes) ((⟨0, 64, 64, 200, 4, 256⟩ : Kern).dem 0) ∧
+    FitsPool [[2, 2], [2, 2]] (demoPool.map CU.shapes) ((⟨0, 160, 64, 16, 4, 256⟩ : Kern).dem 0) := by
+  refine ⟨demoPool_inv, ?_, ⟨0, by decide, by decide⟩⟩
+  rintro ⟨c, hc, hf⟩
+  have hc2 : c < 2 := hc
+  have : c = 0 ∨ c = 1 := by omega
+  rcases this with rfl | rfl <;> exact absurd hf (by decide)
+
+/-- **A queued launch — in particular a rejected one, which stays queued — is never mapped and never
+    answered**: in every reachable state (distinct launch ids) the trace holds no `MapWGReq` and no
+    `LaunchKernelRsp` of a launch that is still in `ToDriver`. -/
+theorem queued_launch_is_untouched (cfg : Cfg) (nd : Nat) (pool : List CU) (ops : List Op)
+    (hids : (launchIds ops).Nodup) (k : Kern) (hk : k ∈ (run (mkCP cfg nd pool) ops).drvIn) :
+    mapsOf (run (mkCP cfg nd pool) ops).log k.id = [] ∧ rspCount (run (mkCP cfg nd pool) ops).log k.id = 0 :=
+  (run_GI ops _ (mkCP_DCI cfg nd pool) (mkCP_GI cfg nd pool _ hids)).wait k hk
+
+/-! ## the witness: an oversize work-group waited for ever before the repair, now it is rejected -/
+
+/-- the state two ticks after the launch of a kernel whose work-group needs 200 SGPRs on 64-SGPR CUs,
+    on the pinned code before the repair -/
+def tooBigEnd : CP := runOld (mkCP demoCfg 2 demoPool) tooBigOps
+
+/-- **`oversize_group_waits_forever_before_fix`** (kernel-checked witness about the code *before* the
+    repair 91eb1bb3: `handleLaunchOld` / `cpTickOld` / `runOld`). The work-group fits no CU
+    (`¬ KernFits`). Then for ever: no fault, the environment owes nothing at every tick (both ports have
+    room, nothing is in flight, no unread message), and yet the launch is never answered, never mapped
+    and never rejected — every tick reports no progress (the state is a fixed point of
+    `CommandProcessor.Tick`, so the ticking component goes to sleep and nothing wakes it). This was the
+    recorded finding `C09.oversize.silent-wait`; the harness keeps the oracle, so that reverting the
+    repair is caught. -/
+theorem oversize_group_waits_forever_before_fix :
     ¬ KernFits [[2, 2], [2, 2]] (demoPool.map CU.shapes) ⟨0, 64, 64, 200, 4, 256⟩ ∧
-    ∀ n, let cp := run (mkCP demoCfg 2 demoPool) (tooBigOps ++ prefixOf (fun _ => Op.tick) n)
-      cp = tooBigEnd ∧ cp.fault = none ∧ EnvReady cp ∧ (cpTick cp).2 = false ∧ cp.log = [] ∧
+    ∀ n, let cp := runOld (mkCP demoCfg 2 demoPool) (tooBigOps ++ prefixOf (fun _ => Op.tick) n)
+      cp = tooBigEnd ∧ cp.fault = none ∧ EnvReady cp ∧ (cpTickOld cp).2 = false ∧ cp.log = [] ∧
       ¬ AllAnswered cp := by
   constructor
   · intro h
@@ -214,13 +325,17 @@ theorem oversize_group_waits_forever :
     have hc2 : c < 2 := hc
     have : c = 0 ∨ c = 1 := by omega
     rcases this with rfl | rfl <;> exact absurd hf (by decide)
-  · have fix : ∀ n, run (mkCP demoCfg 2 demoPool) (tooBigOps ++ prefixOf (fun _ => Op.tick) n) = tooBigEnd := by
+  · have fix : ∀ n, runOld (mkCP demoCfg 2 demoPool) (tooBigOps ++ prefixOf (fun _ => Op.tick) n) = tooBigEnd := by
       intro n
       induction n with
       | zero => simp [prefixOf, tooBigEnd]
       | succ n ih =>
-        rw [run_prefix_succ, ih]
-        show (cpTick tooBigEnd).1 = tooBigEnd
+        have : runOld (mkCP demoCfg 2 demoPool) (tooBigOps ++ prefixOf (fun _ => Op.tick) (n + 1)) =
+            stepOld (runOld (mkCP demoCfg 2 demoPool) (tooBigOps ++ prefixOf (fun _ => Op.tick) n)) .tick := by
+          rw [prefixOf_succ, ← List.append_assoc]
+          simp [runOld, List.foldl_append]
+        rw [this, ih]
+        show (cpTickOld tooBigEnd).1 = tooBigEnd
         decide
     intro n
     simp only
@@ -234,5 +349,19 @@ theorem oversize_group_waits_forever :
     intro ids rest h
     have : tooBigEnd.cuIn = [] := by decide
     rw [this] at h; cases h
+
+/-- **`oversize_group_is_rejected`** (kernel-checked witness about the repaired code). The same 200-SGPR
+    kernel on the same 64-SGPR CUs: the first `CommandProcessor.Tick` after the launch — the tick in
+    which dispatcher 0 would take it — ends with `fault = some "oversize"`; nothing was mapped or
+    answered, the launch is still queued and no dispatcher holds it. The fault is terminal: further
+    ticks change nothing. Replayed on the real command processor (`c09OversizeCase`). -/
+theorem oversize_group_is_rejected :
+    (run (mkCP demoCfg 2 demoPool) [.launch ⟨0, 64, 64, 200, 4, 256⟩, .tick]).fault = some "oversize" ∧
+    (run (mkCP demoCfg 2 demoPool) [.launch ⟨0, 64, 64, 200, 4, 256⟩, .tick]).log = [] ∧
+    (run (mkCP demoCfg 2 demoPool) [.launch ⟨0, 64, 64, 200, 4, 256⟩, .tick]).drvIn = [⟨0, 64, 64, 200, 4, 256⟩] ∧
+    (run (mkCP demoCfg 2 demoPool) [.launch ⟨0, 64, 64, 200, 4, 256⟩, .tick]).disps.map (·.kern) = [none, none] ∧
+    run (mkCP demoCfg 2 demoPool) tooBigOps = run (mkCP demoCfg 2 demoPool) [.launch ⟨0, 64, 64, 200, 4, 256⟩, .tick] ∧
+    (runOld (mkCP demoCfg 2 demoPool) [.launch ⟨0, 64, 64, 200, 4, 256⟩, .tick]).fault = none := by
+  decide
 
 end C09
